@@ -39,6 +39,8 @@ SHARD_TIMEOUT = {"quick": 900, "thorough": 3000}
 
 def plan(tier: str, seed: int) -> list[dict[str, Any]]:
     descs = graphs.descriptors(common.sub_seed(seed, "c20") & 0x7FFFFFFF, N_GRAPHS[tier])
+    for i, d in enumerate(descs):
+        d["dw"] = i % 3 == 0          # wrapped data in a third of the generated programs
     n = common.NCPU * (1 if tier == "quick" else 3)
     return [{"descs": c} for c in common.split_even(descs, n)]
 
